@@ -52,6 +52,23 @@ func ruleCandidates(fd protoreflect.FieldDescriptor) []protoreflect.Value {
 			if r.MinLen != nil {
 				try(protoreflect.ValueOfString(strings.Repeat("a", int(r.GetMinLen()))))
 			}
+			// affix rules: the literals themselves, joined, joined around a filler, and every overlap of prefix and suffix
+			// (a value may end its prefix where its suffix starts: "/" for prefix "/" suffix "/", "abc" for "ab" .. "bc")
+			pre, suf, con := r.GetPrefix(), r.GetSuffix(), r.GetContains()
+			if pre != "" || suf != "" || con != "" {
+				pad := ""
+				if r.MinLen != nil {
+					pad = strings.Repeat("x", int(r.GetMinLen()))
+				}
+				for _, mid := range []string{con, con + "x", "x" + con + "y", con + pad} {
+					try(protoreflect.ValueOfString(pre + mid + suf))
+				}
+				for k := 1; k <= len(pre) && k <= len(suf); k++ {
+					if strings.HasSuffix(pre, suf[:k]) {
+						try(protoreflect.ValueOfString(pre + suf[k:]))
+					}
+				}
+			}
 		}
 	case protoreflect.BytesKind:
 		if r := fr.GetBytes(); r != nil {
